@@ -1,5 +1,11 @@
 //! Family binary (checks are registered here).
 
+mod c45;
+mod c47;
+mod c48;
+mod c49;
+mod streams;
+
 fn main() {
-    mc::main_dispatch(&[]);
+    mc::main_dispatch(&[("C45", c45::run, c45::META), ("C47", c47::run, c47::META), ("C48", c48::run, c48::META), ("C49", c49::run, c49::META)]);
 }
